@@ -36,6 +36,7 @@ RULES = [
     (r'next\.empty\(\)', 'rbuf_empty( &next )', '*'),
     (r'(?<![\w.>])acknowledge\( header & nesn_flag \)', 'acknowledge_bool( self, header & nesn_flag )', '*'),
     (r'(?<![\w.>])next_transmit\(\)', 'next_transmit( self )', '*'),
+    (r'(?<![\w.>])received\( pdu \)', 'received( self, pdu )', '*'),
     (r'(?<![\w.>])set_next_expected_sequence_number\( ', 'set_next_expected_sequence_number( self, ', '*'),
     (r'(?<![\w.>])reset_pdu_buffer\(\)', 'reset_pdu_buffer( self )', '*'),
 ]
